@@ -84,10 +84,14 @@ func combinedHistory(c *vc.Ctx, idx int, label string, blocks int, tune func(*lo
 		}
 		return cm
 	}
+	// directed: a batch of 9..12 withdrawals paid at once, finalised together with a few refunds (more notices due than one
+	// execution block may carry)
+	burst := &wdBurst{at: 12 + idx%9, n: 9 + idx%4, refunds: 2 + idx%3}
 	for blk := 0; blk < cfg.Blocks && !lh.failed; blk++ {
 		if !b.refreshGroup() {
 			return
 		}
+		burst.step(b, wm, blk, c.Seed, idx)
 		c03Gen(b, blk, muts)
 		c05Gen(wm, blk, cfg.Blocks, idx, addrPool)
 		var rq goattypes.RelayerRequests
